@@ -30,7 +30,10 @@ def specOcmp (a b : Value) : String :=
   | .null, .null => "eq"
   | .null, _ => "gt"
   | _, .null => "lt"
-  | a, b => match Spec.numOrder a b with
+  | a, b =>
+    -- values of different kinds: the openCypher orderability of kinds decides
+    if Spec.typeRank a < Spec.typeRank b then "lt" else if Spec.typeRank b < Spec.typeRank a then "gt" else
+    match Spec.numOrder a b with
     | some o => ordStr o
     | none => match a, b with
       | .bool x, .bool y => ordStr (Value.cmpBool x y)
